@@ -439,6 +439,19 @@ def check_payload_builder(ctx, g):
                     t.expand(c.expr)) for c in guards)
             by_inst = neg or any('isinstance(' in U(t.expand(c.expr))
                                  for c in guards)
+            if not exact and not by_inst:
+                # keys selected beforehand by a comprehension with the test
+                for c in p.conds[:ev.nconds]:
+                    it = t.expand(c.expr) if c.kind == 'loop' else None
+                    if isinstance(it, (ast.ListComp, ast.GeneratorExp,
+                                       ast.SetComp)):
+                        for g_ in it.generators:
+                            for cnd in g_.ifs:
+                                tx = U(cnd).replace(' ', '')
+                                if 'isinstance(' in tx:
+                                    by_inst = True
+                                elif tx.endswith(('isobject', '==object')):
+                                    exact = True
             key = (ev.line, exact, bool(by_inst))
             if key in seen_b:
                 continue
